@@ -26,6 +26,8 @@ def body_ratio(E, n, with_h, scaling):
     ratio, exit_info = C.calculate_ratio(x, E.int('iter', 0, None), rl, d, gopt, H)
     if exit_info is None:
         E.prove(E.implies(ratio > 0, trial < old), 'C04:ratio:positive-ratio-only-for-a-better-trial-point')
+        if with_h:
+            E.prove(E.implies(ratio > 0, trial < old), 'C06:ratio:actual-reduction-includes-the-change-of-h')
     E.reach('ratio:checked')
 
 
